@@ -726,7 +726,7 @@ def check_set_empty_writers(ctx) -> None:
                 ctx.violation("A6", c, "set_empty(key) with the default empty=True records emptiness nobody computed")
                 continue
             if isinstance(val, ast.Constant) and val.value is False:
-                gt = C.guard_texts(f, c)
+                gt = [(norm(D.expanded(f, t_)) if isinstance(t_, ast.Name) else norm(t_), p_) for t_, p_ in C.flatten_guards(C.guards(f, c))]
                 if ("rule.possibly_empty", False) in gt or any(t.endswith(".possibly_empty") and not p for t, p in gt):
                     ctx.ok("A6", f"{fi.qualname}: set_empty(.., False) under `not possibly_empty`")
                 else:
